@@ -14,6 +14,7 @@ Proof.
   - eapply inv_stop_begin; eauto.
   - eapply inv_stop_close_lis; eauto.
   - eapply inv_stop_wait_accept; eauto.
+  - eapply inv_stop_close_reg; eauto.
   - eapply inv_stop_close_conns; eauto.
   - eapply inv_stop_wait_conns; eauto.
   - eapply inv_accept_ok; eauto.
@@ -42,8 +43,8 @@ Theorem stopped_clean s : Inv s -> pc s = PStopped ->
   (conn_wg s = 0 -> registry s = [] /\ forall c, In c (conns s) -> ct_st c = CDone /\ ct_open c = false).
 Proof.
   intros I P. split; [|split].
-  - apply (i_closed s I). unfold stopped_phase. rewrite P. auto.
-  - apply (i_noloops s I). unfold no_loop_phase. rewrite P. auto.
+  - apply (i_closed s I). unfold stopped_phase. rewrite P. auto 10.
+  - apply (i_noloops s I). unfold no_loop_phase. rewrite P. auto 10.
   - intros W.
     assert (AD : forall c, In c (conns s) -> ct_st c = CDone).
     { intros c Hc. pose proof (i_cwg s I) as A. rewrite W in A. symmetry in A. pose proof (count_zero not_done (conns s) A c Hc) as Z.
@@ -78,15 +79,15 @@ Proof.
     - apply mem_nat_in in Hin. rewrite Hin. destruct (stopping s); discriminate.
     - exfalso. unfold find_loop in FL. apply (find_none _ _ FL a) in Ha. rewrite A1, Nat.eqb_refl, A2 in Ha. discriminate. }
   split; intros Hc.
-  - destruct (fld_plain s) as [l|] eqn:F; [|exfalso; apply (i_cfg_p s I ltac:(rewrite P; auto) Hc); exact F].
-    rewrite <- F. apply En. apply (i_run_p s I ltac:(rewrite P; auto) l F).
-  - destruct (fld_tls s) as [l|] eqn:F; [|exfalso; apply (i_cfg_t s I ltac:(rewrite P; auto) Hc); exact F].
-    rewrite <- F. apply En. apply (i_run_t s I ltac:(rewrite P; auto) l F).
+  - destruct (fld_plain s) as [l|] eqn:F; [|exfalso; apply (i_cfg_p s I ltac:(rewrite P; auto 10) Hc); exact F].
+    rewrite <- F. apply En. apply (i_run_p s I ltac:(rewrite P; auto 10) l F).
+  - destruct (fld_tls s) as [l|] eqn:F; [|exfalso; apply (i_cfg_t s I ltac:(rewrite P; auto 10) Hc); exact F].
+    rewrite <- F. apply En. apply (i_run_t s I ltac:(rewrite P; auto 10) l F).
 Qed.
 
 (* C15 (3): outside Stop's close phase the registry holds exactly the connections between registration and
    deregistration *)
-Theorem registry_exact s : Inv s -> pc s <> PStop4 ->
+Theorem registry_exact s : Inv s -> exact_phase (pc s) ->
   forall id, In id (registry s) <-> exists c, In c (conns s) /\ ct_id c = id /\ ct_st c = CRegistered.
 Proof.
   intros I P id. split; [apply (i_reg s I)|]. intros (c & Hc & <- & St). apply (i_exact s I P c Hc St).
@@ -114,7 +115,7 @@ Qed.
 (* an executable schedule: Start, two clients (one plain admitted, one TLS whose handshake fails), Stop *)
 Example lifecycle_ex :
   let ls := [LStartBegin; LStartOpen; LStartSpawnPlain; LStartSpawnTLS; LAcceptOk 0; LAcceptOk 1; LAdmit 2; LHandshakeFail 3;
-             LStopBegin; LStopCloseLis; LAcceptFail 0; LAcceptFail 1; LStopWaitAccept; LStopCloseConns; LFinish 2; LStopWaitConns] in
+             LStopBegin; LStopCloseLis; LAcceptFail 0; LAcceptFail 1; LStopWaitAccept; LStopCloseReg; LStopCloseConns; LFinish 2; LStopWaitConns] in
   let s := lrun (init true true) ls in
   pc s = PStopped /\ registry s = [] /\ open_lis s = [] /\ conn_wg s = 0 /\ accept_wg s = 0 /\ length (conns s) = 2.
 Proof. vm_compute. repeat split; reflexivity. Qed.
@@ -131,7 +132,7 @@ Definition is_stopped (s : sys) : bool := match pc s with PStopped => true | _ =
 Definition do_start (s : sys) : sys := lrun s [LStartBegin; LStartOpen; LStartSpawnPlain; LStartSpawnTLS].
 Definition do_stop (s : sys) : sys :=
   let s1 := lrun s [LStopBegin; LStopCloseLis] in
-  let s2 := lrun s1 (map (fun a => LAcceptFail (al_lis a)) (loops s1) ++ [LStopWaitAccept; LStopCloseConns]) in
+  let s2 := lrun s1 (map (fun a => LAcceptFail (al_lis a)) (loops s1) ++ [LStopWaitAccept; LStopCloseReg; LStopCloseConns]) in
   lrun s2 (map (fun c => LFinish (ct_id c)) (conns s2) ++ map (fun c => LHandshakeFail (ct_id c)) (conns s2) ++ [LStopWaitConns]).
 
 Definition life_op (st : sys * list nat) (o : lop) : (sys * list nat) * lobs :=
